@@ -175,8 +175,32 @@ def _replay_generators(stem, vals):
     am = atomman()
     msgs = []
     try:
-        for case in fam.quick_cases()[:3]:
+        cases = fam.quick_cases()
+        if 'box_boundary' in stem:
+            pick = [c for c in cases if c.get('boundary') == 'box'][:4]
+        elif 'cylinder' in stem:
+            pick = [c for c in cases if c.get('boundary') == 'cylinder'][:3]
+        elif 'periodicarray' in stem or 'shear' in stem or 'array' in stem:
+            pick = [c for c in cases if c.get('gen') == 'periodicarray'][:3]
+        else:
+            pick = cases[:3]
+        for case in pick:
             msgs += ['%s: %s' % (case['key'], m) for m in fam.check_case(am, case) if not m.startswith('REFUSED')]
+        if 'set_shift' in stem or 'shift' in stem:
+            # a shift given relative to the rotated cell's vectors is shift . vects, also when those vectors are not orthogonal
+            import numpy as np
+            done_ = 0
+            for case in [c for c in cases if c['key'].startswith(('hcp_pyramidal', 'hcp_prism', 'bcc_mixed', 'fcc_mixed'))]:
+                built = fam.build(am, case)
+                d = built[2] if isinstance(built, tuple) else built
+                if d is None or np.allclose(d.rcell.box.vects, np.diag(np.diag(d.rcell.box.vects))) or done_ >= 2:
+                    continue
+                done_ += 1
+                rel = np.array([0.13, 0.21, 0.34])
+                d.set_shift(shift=rel, shiftscale=True)
+                want = rel.dot(d.rcell.box.vects)
+                if not np.allclose(d.shift, want, atol=1e-10):
+                    msgs.append('%s: set_shift(shift=%r, shiftscale=True) stores %r; shift . (rotated cell vectors) = %r' % (case['key'], rel.tolist(), np.round(d.shift, 6).tolist(), np.round(want, 6).tolist()))
     except Exception as e:
         msgs.append('raised %s: %s' % (type(e).__name__, e))
     return (len(msgs) > 0, '; '.join(msgs[:3]) if msgs else 'float replay of the generator contracts on real crystals found no disagreement')
